@@ -65,6 +65,7 @@ static std::string errkind(const std::string &m) {
     if (m.find("extraction failed") != std::string::npos) return "extraction";
     if (m.find("conversion failed") != std::string::npos) return "conversion";
     if (m.find("not fully consumed") != std::string::npos) return "not-consumed";
+    if (m.find("number longer than") != std::string::npos) return "too-long";
     return "other";
 }
 
